@@ -16,6 +16,103 @@ FX = f"{A}.feature_extractor"
 LM = f"{A}.lmeasure.LMeasure"
 
 
+
+def sholl_chain_rule(ctx, col):
+    repo = ctx.repo
+    # --- chains through the sampling sphere, folded exactly: whatever the convention for a sample that lies exactly on the sphere, a neurite that passes
+    # THROUGH it there is counted once, one that only touches it there an even number of times (0 or 2), one that ends there at most once
+    from itertools import product as _prod
+    from fractions import Fraction as _Fr
+    from ..vecfold import VecEval, Unsupported as _Uns, Randomised as _Rnd, ZeroNorm as _Zero
+    col.rule("R-SHOLLCHAIN", "Sholl count along a chain of samples, folded exactly for every pattern of samples inside / on / outside the sphere (chains of two and three "
+             "samples): strict crossings are counted once, a sample exactly on the sphere contributes 1 when the neurite passes through, 0 or 2 when it only touches, "
+             "at most 1 at a chain end -- independent of the tie convention; Sholl.get and Sholl.intersect give the same number", floor=2, exhaustive=True)
+    sh = repo.get_class(f"{A}.sholl.Sholl")
+    helpers0 = {m_.name: m_.node for m_ in sh.methods.values() if not m_.is_lambda and m_.name not in ("_get_rs", "get_rs", "__init__", "plot")}
+    # the radius handed to intersect(r) is the radius counted at: no method it calls replaces it by the object's own (deprecated, constructor-given) step
+    col.rule("R-SHOLLARG", "Sholl.intersect(r) counts at the radius it is given: the methods it reaches through self.<m>() calls never read the deprecated `self.step` "
+             "(`_get_rs` substitutes the object's own radii for its argument when the object was built with step=...)", floor=1)
+    d_i = repo.get_def(f"{A}.sholl.Sholl.intersect")
+    reach_, todo_ = set(), ["intersect"]
+    while todo_:
+        m0 = todo_.pop()
+        if m0 in reach_ or m0 not in sh.methods:
+            continue
+        reach_.add(m0)
+        for c_ in ast.walk(sh.methods[m0].node):
+            if isinstance(c_, ast.Call) and isinstance(c_.func, ast.Attribute) and isinstance(c_.func.value, ast.Name) and c_.func.value.id == "self":
+                todo_.append(c_.func.attr)
+    readers_ = sorted(m0 for m0 in reach_ if any(isinstance(a_, ast.Attribute) and a_.attr == "step" and isinstance(a_.value, ast.Name) and a_.value.id == "self"
+                                                  for a_ in ast.walk(sh.methods[m0].node)))
+    col.check(not readers_, "R-SHOLLARG", d_i.qualname, d_i.loc(), "intersect(r) counts at r, whatever the object was built with", f"reaches {sorted(reach_)}",
+              f"intersect reaches {readers_} which read(s) `self.step`: on an object built with the deprecated `Sholl(tree, step=s)` the radii come from s, the argument r is ignored "
+              f"-- every intersect(r) returns the count at radius s", stmt="sholl-arg", definite=True)
+    for meth in ("intersect", "get"):
+        d = repo.get_def(f"{A}.sholl.Sholl.{meth}")
+        helpers = {k_: v_ for k_, v_ in helpers0.items() if k_ != meth and not (meth == "get" and k_ == "intersect" and False)}
+        bad = und = None
+        n_w = 0
+        for k in (2, 3):
+            for ranks in _prod((1, 2, 3), repeat=k):
+                r = 2
+                segs = tuple((ranks[i], ranks[i + 1]) for i in range(k - 1))
+                sg = [(x > r) - (x < r) for x in ranks]
+                lo = hi = 0
+                for i in range(k - 1):
+                    if sg[i] * sg[i + 1] < 0:
+                        lo += 1
+                        hi += 1
+                for i in range(k):
+                    if sg[i] == 0:
+                        nb = [sg[j] for j in (i - 1, i + 1) if 0 <= j < k]
+                        if len(nb) == 2 and nb[0] * nb[1] < 0:
+                            lo += 1
+                            hi += 1            # passes through at a sample: exactly one
+                        elif len(nb) == 2 and nb[0] * nb[1] > 0:
+                            hi += 2            # touches: 0 or 2
+                        elif len(nb) == 2:
+                            hi += 2            # a run of samples on the sphere: not constrained beyond evenness / small
+                        else:
+                            hi += 1            # chain end on the sphere
+                env = {"self.rs": segs, "r": r, "steps": (r,)}
+                try:
+                    ev = VecEval(env, identity_calls=("_get_rs", "get_rs"), methods=helpers)
+                    got = ev.run(d.node.body)
+                except (_Uns, _Rnd, _Zero) as x:
+                    und = f"{type(x).__name__}: {x}"
+                    break
+                except Exception as x:  # noqa: BLE001
+                    und = f"{type(x).__name__}: {x}"
+                    break
+                if isinstance(got, tuple) and len(got) == 1:
+                    got = got[0]
+                if not isinstance(got, _Fr):
+                    und = f"the count is not a number: {got!r}"[:100]
+                    break
+                n_w += 1
+                g_ = int(got)
+                touch_only = all(not (sg[i] == 0 and 0 < i < k - 1 and sg[i - 1] * sg[i + 1] < 0) for i in range(k))
+                ok_ = lo <= g_ <= hi
+                # a pure touch (same side before and after) must contribute an even number
+                if ok_ and k == 3 and sg[1] == 0 and sg[0] * sg[2] > 0 and g_ % 2 == 1:
+                    ok_ = False
+                if not ok_:
+                    bad = (ranks, g_, lo, hi)
+                    break
+            if bad or und:
+                break
+        what_c = f"Sholl.{meth}: crossings along a chain of samples (tie convention free)"
+        if bad is not None:
+            names_ = {1: "inside", 2: "on the sphere", 3: "outside"}
+            col.bad("R-SHOLLCHAIN", d.qualname, d.loc(), what_c,
+                    f"a neurite whose consecutive samples lie {', '.join(names_[x] for x in bad[0])} is counted {bad[1]} time(s) at that radius; it crosses the sphere "
+                    f"{bad[2] if bad[2] == bad[3] else f'{bad[2]}..{bad[3]}'} time(s) -- a sample that lies exactly on the sampling sphere is counted for both of its segments, or for neither",
+                    stmt=f"chain:{meth}", definite=True)
+        elif und is not None:
+            col.unresolved("R-SHOLLCHAIN", d.qualname, d.loc(), what_c, f"cannot fold the count exactly: {und}", stmt=f"chain:{meth}")
+        else:
+            col.ok("R-SHOLLCHAIN", d.qualname, d.loc(), what_c, f"{n_w} chains folded", stmt=f"chain:{meth}")
+
 def run(ctx, col, tier):
     from ..rules import normaxis as _normaxis
     _normaxis.run(ctx, col, ('swcgeom.analysis.volume', 'swcgeom.utils.volumetric_object', 'swcgeom.utils.solid_geometry', 'swcgeom.analysis.features', 'swcgeom.analysis.lmeasure', 'swcgeom.analysis.sholl', 'swcgeom.core.tree', 'swcgeom.core.path', 'swcgeom.core.branch', 'swcgeom.transforms.branch', 'swcgeom.transforms.branch_tree'))
@@ -273,80 +370,7 @@ def sholl(ctx, col):
         d = repo.get_def(f"{A}.sholl.Sholl.intersect")
         col.check(tabs["get"] == tabs["intersect"], R_, d.qualname, d.loc(), "get and intersect use the same predicate (ties included)", "",
                   "Sholl.get and Sholl.intersect disagree on some ordering", stmt="agree")
-    # --- chains through the sampling sphere, folded exactly: whatever the convention for a sample that lies exactly on the sphere, a neurite that passes
-    # THROUGH it there is counted once, one that only touches it there an even number of times (0 or 2), one that ends there at most once
-    from itertools import product as _prod
-    from fractions import Fraction as _Fr
-    from ..vecfold import VecEval, Unsupported as _Uns, Randomised as _Rnd, ZeroNorm as _Zero
-    col.rule("R-SHOLLCHAIN", "Sholl count along a chain of samples, folded exactly for every pattern of samples inside / on / outside the sphere (chains of two and three "
-             "samples): strict crossings are counted once, a sample exactly on the sphere contributes 1 when the neurite passes through, 0 or 2 when it only touches, "
-             "at most 1 at a chain end -- independent of the tie convention; Sholl.get and Sholl.intersect give the same number", floor=2, exhaustive=True)
-    sh = repo.get_class(f"{A}.sholl.Sholl")
-    helpers = {m_.name: m_.node for m_ in sh.methods.values() if not m_.is_lambda and m_.name not in ("get", "_get_rs", "get_rs", "__init__", "plot")}
-    for meth in ("intersect", "get"):
-        d = repo.get_def(f"{A}.sholl.Sholl.{meth}")
-        bad = und = None
-        n_w = 0
-        for k in (2, 3):
-            for ranks in _prod((1, 2, 3), repeat=k):
-                r = 2
-                segs = tuple((ranks[i], ranks[i + 1]) for i in range(k - 1))
-                sg = [(x > r) - (x < r) for x in ranks]
-                lo = hi = 0
-                for i in range(k - 1):
-                    if sg[i] * sg[i + 1] < 0:
-                        lo += 1
-                        hi += 1
-                for i in range(k):
-                    if sg[i] == 0:
-                        nb = [sg[j] for j in (i - 1, i + 1) if 0 <= j < k]
-                        if len(nb) == 2 and nb[0] * nb[1] < 0:
-                            lo += 1
-                            hi += 1            # passes through at a sample: exactly one
-                        elif len(nb) == 2 and nb[0] * nb[1] > 0:
-                            hi += 2            # touches: 0 or 2
-                        elif len(nb) == 2:
-                            hi += 2            # a run of samples on the sphere: not constrained beyond evenness / small
-                        else:
-                            hi += 1            # chain end on the sphere
-                env = {"self.rs": segs, "r": r, "steps": (r,)}
-                try:
-                    ev = VecEval(env, identity_calls=("_get_rs", "get_rs"), methods=helpers)
-                    got = ev.run(d.node.body)
-                except (_Uns, _Rnd, _Zero) as x:
-                    und = f"{type(x).__name__}: {x}"
-                    break
-                except Exception as x:  # noqa: BLE001
-                    und = f"{type(x).__name__}: {x}"
-                    break
-                if isinstance(got, tuple) and len(got) == 1:
-                    got = got[0]
-                if not isinstance(got, _Fr):
-                    und = f"the count is not a number: {got!r}"[:100]
-                    break
-                n_w += 1
-                g_ = int(got)
-                touch_only = all(not (sg[i] == 0 and 0 < i < k - 1 and sg[i - 1] * sg[i + 1] < 0) for i in range(k))
-                ok_ = lo <= g_ <= hi
-                # a pure touch (same side before and after) must contribute an even number
-                if ok_ and k == 3 and sg[1] == 0 and sg[0] * sg[2] > 0 and g_ % 2 == 1:
-                    ok_ = False
-                if not ok_:
-                    bad = (ranks, g_, lo, hi)
-                    break
-            if bad or und:
-                break
-        what_c = f"Sholl.{meth}: crossings along a chain of samples (tie convention free)"
-        if bad is not None:
-            names_ = {1: "inside", 2: "on the sphere", 3: "outside"}
-            col.bad("R-SHOLLCHAIN", d.qualname, d.loc(), what_c,
-                    f"a neurite whose consecutive samples lie {', '.join(names_[x] for x in bad[0])} is counted {bad[1]} time(s) at that radius; it crosses the sphere "
-                    f"{bad[2] if bad[2] == bad[3] else f'{bad[2]}..{bad[3]}'} time(s) -- a sample that lies exactly on the sampling sphere is counted for both of its segments, or for neither",
-                    stmt=f"chain:{meth}", definite=True)
-        elif und is not None:
-            col.unresolved("R-SHOLLCHAIN", d.qualname, d.loc(), what_c, f"cannot fold the count exactly: {und}", stmt=f"chain:{meth}")
-        else:
-            col.ok("R-SHOLLCHAIN", d.qualname, d.loc(), what_c, f"{n_w} chains folded", stmt=f"chain:{meth}")
+    sholl_chain_rule(ctx, col)
     # the radii are the two end points of every segment about the root: decided by R-GEO on __init__ (C11) and here as wiring
     d = repo.get_def(f"{A}.sholl.Sholl.__init__")
     src = [norm_src(s) for s in ast.walk(d.node) if isinstance(s, ast.Assign)]
